@@ -149,17 +149,25 @@ set_option linter.unusedVariables false
 
 def walk (st : St) : Option FitFormat.Defs := st.segs.reverse.foldl lenStep (some FitFormat.Defs.empty)
 
+/-- the position walk (`posStep`) over what has been reported so far -/
+def pwalk (st : St) : Option Pos := st.segs.reverse.foldl posStep (some .outside)
+
+/-- both walks are alive -/
+def Alive (st : St) : Prop := (walk st).isSome ∧ (pwalk st).isSome
+
 /-- what a finished run (outcome, unread rest) must satisfy with respect to the stream `bs` -/
 def Post (bs : Bytes) (r : Out × Bytes) : Prop :=
-  (∃ mid, flat r.1.segs ++ mid ++ r.2 = bs ∧ (r.1.status = none → mid = [])) ∧ lengthsOK r.1.segs = true
+  (∃ mid, flat r.1.segs ++ mid ++ r.2 = bs ∧ (r.1.status = none → mid = [])) ∧ lengthsOK r.1.segs = true ∧
+  layoutOK r.1.segs = true ∧ (r.1.status = none → layoutClosed r.1.segs = true)
 
 theorem post_fail {bs : Bytes} (st : St) (e : Err) (mid fin : Bytes)
-    (h1 : flat st.segs.reverse ++ mid ++ fin = bs) (h2 : (walk st).isSome) : Post bs (fail st e, fin) :=
-  ⟨⟨mid, h1, fun h => by simp [fail] at h⟩, h2⟩
+    (h1 : flat st.segs.reverse ++ mid ++ fin = bs) (h2 : Alive st) : Post bs (fail st e, fin) :=
+  ⟨⟨mid, h1, fun h => by simp [fail] at h⟩, h2.1, h2.2, fun h => by simp [fail] at h⟩
 
 theorem post_done {bs : Bytes} (st : St) (fin : Bytes)
-    (h1 : flat st.segs.reverse ++ fin = bs) (h2 : (walk st).isSome) : Post bs (done st, fin) :=
-  ⟨⟨[], by simpa [done] using h1, fun _ => rfl⟩, h2⟩
+    (h1 : flat st.segs.reverse ++ fin = bs) (h2 : (walk st).isSome) (h3 : pwalk st = some .outside) : Post bs (done st, fin) :=
+  ⟨⟨[], by simpa [done] using h1, fun _ => rfl⟩, h2, by show (pwalk st).isSome = true; rw [h3]; rfl,
+    fun _ => by show (pwalk st == some .outside) = true; rw [h3]; decide⟩
 
 theorem walk_push (st : St) (s : Seg) : walk { st with segs := s :: st.segs } = lenStep (walk st) s := by
   simp [walk, List.foldl_append]
@@ -167,12 +175,44 @@ theorem walk_push (st : St) (s : Seg) : walk { st with segs := s :: st.segs } = 
 theorem walk_of_segs (st' st : St) (s : Seg) (h : st'.segs = s :: st.segs) : walk st' = lenStep (walk st) s := by
   simp [walk, h, List.foldl_append]
 
+theorem pwalk_push (st : St) (s : Seg) : pwalk { st with segs := s :: st.segs } = posStep (pwalk st) s := by
+  simp [pwalk, List.foldl_append]
+
+theorem pwalk_of_segs (st' st : St) (s : Seg) (h : st'.segs = s :: st.segs) : pwalk st' = posStep (pwalk st) s := by
+  simp [pwalk, h, List.foldl_append]
+
+/-- a record segment while the data size is not reached -/
+theorem posStep_rec (ds used flag : Nat) (bytes : Bytes) (hf : flag = rawFlagMesgDef ∨ flag = rawFlagMesgData)
+    (hu : used < ds) : posStep (some (.inside ds used)) ⟨flag, bytes⟩ = some (.inside ds (used + bytes.length)) := by
+  simp only [posStep, hf, if_true, hu]
+
+theorem posStep_crc (ds used : Nat) (bytes : Bytes) (hu : ds ≤ used) :
+    posStep (some (.inside ds used)) ⟨rawFlagCRC, bytes⟩ = some .outside := by
+  have h1 : ¬ (rawFlagCRC = rawFlagMesgDef ∨ rawFlagCRC = rawFlagMesgData) := by decide
+  simp only [posStep, h1, if_false, if_true, hu]
+
+/-- the header the raw decoder accepts is a header for the independent reading, with the same data size -/
+theorem parseHeader_of_raw (b0 : Nat) (B : Bytes) (hb0 : b0 = 12 ∨ b0 = 14) (hl : B.length = b0 - 1)
+    (htag : (B.drop 7).take 4 = dataTypeFIT) :
+    ∃ h, FitFormat.parseHeader (b0 :: B) = some h ∧ h.dataSize = le32 (B.drop 3) := by
+  have ht : dataTypeFIT = FitFormat.tag := by decide
+  rcases hb0 with rfl | rfl
+  · match B, hl with
+    | [pv, p0, p1, d0, d1, d2, d3, t0, t1, t2, t3], _ =>
+      simp only [List.drop_succ_cons, List.drop_zero, List.take_succ_cons, List.take_zero, ht] at htag
+      exact ⟨_, by simp only [FitFormat.parseHeader, htag, ne_eq, not_true_eq_false, if_false, if_true]; rfl, rfl⟩
+  · match B, hl with
+    | [pv, p0, p1, d0, d1, d2, d3, t0, t1, t2, t3, c0, c1], _ =>
+      simp only [List.drop_succ_cons, List.drop_zero, List.take_succ_cons, List.take_zero, ht] at htag
+      refine ⟨_, by simp only [FitFormat.parseHeader, htag, ne_eq, not_true_eq_false, if_false, if_true]; rfl, rfl⟩
+
 theorem flat_push (st : St) (s : Seg) : flat (s :: st.segs).reverse = flat st.segs.reverse ++ s.bytes := by
   simp [flat]
 
 /-- `emit`: the callback sees a segment that continues the stream and has the prescribed length -/
 theorem emit_post {bs : Bytes} (failAt : Option Nat) (st : St) (flag : Nat) (bytes rest : Bytes) (k : St → P)
     (h1 : flat st.segs.reverse ++ bytes ++ rest = bs) (h2 : (lenStep (walk st) ⟨flag, bytes⟩).isSome)
+    (h3 : (posStep (pwalk st) ⟨flag, bytes⟩).isSome)
     (hk : ∀ st', st'.segs = ⟨flag, bytes⟩ :: st.segs → st'.seqs = st.seqs → Post bs (runExactR (k st') rest)) :
     Post bs (runExactR (emit failAt st flag bytes k) rest) := by
   unfold emit
@@ -180,9 +220,10 @@ theorem emit_post {bs : Bytes} (failAt : Option Nat) (st : St) (flag : Nat) (byt
   split
   · exact hk _ rfl rfl
   · split
-    · refine post_fail _ _ [] rest ?_ ?_
+    · refine post_fail _ _ [] rest ?_ ⟨?_, ?_⟩
       · rw [← h1]; simp [fail, flat, List.append_assoc]
       · rw [walk_push]; exact h2
+      · rw [pwalk_push]; exact h3
     · exact hk _ rfl rfl
 
 theorem split_at {rest : Bytes} {n : Nat} (h : n ≤ rest.length) : rest = rest.take n ++ rest.drop n :=
@@ -191,19 +232,22 @@ theorem split_at {rest : Bytes} {n : Nat} (h : n ≤ rest.length) : rest = rest.
 theorem msgs_post {bs : Bytes} (failAt : Option Nat) (ds : Nat) (fuel : Nat) :
     ∀ (used : Nat) (lens : Lens) (st : St) (rest : Bytes) (k : St → P) (defs : FitFormat.Defs),
       flat st.segs.reverse ++ rest = bs → walk st = some defs → RelLens lens defs → IsBytes rest →
+      pwalk st = some (.inside ds used) → ds ≤ used + fuel →
       (∀ st' rest', flat st'.segs.reverse ++ rest' = bs → (walk st').isSome → IsBytes rest' →
+          (∃ u, pwalk st' = some (.inside ds u) ∧ ds ≤ u) →
           Post bs (runExactR (k st') rest')) →
       Post bs (runExactR (msgs failAt ds fuel used lens st k) rest) := by
   induction fuel with
-  | zero => intro used lens st rest k defs h1 h2 _ hb hk; exact hk st rest h1 (by rw [h2]; rfl) hb
+  | zero => intro used lens st rest k defs h1 h2 _ hb hpw hfu hk; exact hk st rest h1 (by rw [h2]; rfl) hb ⟨used, hpw, by omega⟩
   | succ fuel ih =>
-    intro used lens st rest k defs h1 h2 hrel hb hk
-    have hw : (walk st).isSome := by rw [h2]; rfl
+    intro used lens st rest k defs h1 h2 hrel hb hpw hfu hk
+    have hw0 : (walk st).isSome := by rw [h2]; rfl
+    have hw : Alive st := ⟨hw0, by rw [hpw]; rfl⟩
     have hnotHdr : ¬ (rawFlagMesgDef = rawFlagFileHeader) := by decide
     simp only [msgs]
     split
-    case isFalse => exact hk st rest h1 hw hb
-    case isTrue =>
+    case isFalse hnu => exact hk st rest h1 hw0 hb ⟨used, hpw, by omega⟩
+    case isTrue hu =>
       rw [run_read]
       split
       case isFalse => exact post_fail st _ rest [] (by simpa using h1) hw
@@ -277,14 +321,20 @@ theorem msgs_post {bs : Bytes} (failAt : Option Nat) (ds : Nat) (fuel : Nat) :
                         some (defs.set (h &&& 0xF) (sizeSum F + sizeSum D)) := by
                       simp only [lenStep, hnotHdr, if_false, if_true, List.cons_append, List.nil_append, List.append_assoc, hp,
                         hisdef, hlenEq, true_and, hloc, hsf', hsd']
-                    refine emit_post failAt st _ _ R5 _ ?_ ?_ (fun st' hsegs hseqs => ?_)
+                    have hsl : ([h] ++ [r, a, g0, g1, nf] ++ F ++ [nd] ++ D).length = 6 + nf * 3 + 1 + nd * 3 := by
+                      simp only [List.length_append, List.length_cons, List.length_nil, hfl, hdl]; try omega
+                    have pstep := posStep_rec ds used rawFlagMesgDef ([h] ++ [r, a, g0, g1, nf] ++ F ++ [nd] ++ D) (Or.inl rfl) hu
+                    refine emit_post failAt st _ _ R5 _ ?_ ?_ ?_ (fun st' hsegs hseqs => ?_)
                     · rw [← h1]; simp [List.append_assoc]
                     · rw [h2, hstep]; rfl
-                    · refine ih _ _ st' R5 k (defs.set (h &&& 0xF) (sizeSum F + sizeSum D)) ?_ ?_ ?_ hb5' hk
+                    · rw [hpw, pstep]; rfl
+                    · refine ih _ _ st' R5 k (defs.set (h &&& 0xF) (sizeSum F + sizeSum D)) ?_ ?_ ?_ hb5' ?_ ?_ hk
                       · rw [hsegs, flat_push, ← h1]; simp [List.append_assoc]
                       · rw [walk_of_segs st' st _ hsegs, h2, hstep]
                       · rw [hbit4 hisdef, show 1 + sizeSum F + sizeSum D = sizeSum F + sizeSum D + 1 by omega]
                         exact relLens_set hrel _ _
+                      · rw [pwalk_of_segs st' st _ hsegs, hpw, pstep, hsl]
+                      · omega
               · simp only [hdev, if_false]
                 have hdd : FitFormat.hasDevData h = false := by
                   cases hx : FitFormat.hasDevData h with
@@ -298,14 +348,20 @@ theorem msgs_post {bs : Bytes} (failAt : Option Nat) (ds : Nat) (fuel : Nat) :
                     some (defs.set (h &&& 0xF) (sizeSum F)) := by
                   simp only [lenStep, hnotHdr, if_false, if_true, List.cons_append, List.nil_append, List.append_assoc, hp,
                     hisdef, hlenEq, true_and, hloc, hsf', hsd', Nat.add_zero]
-                refine emit_post failAt st _ _ R3 _ ?_ ?_ (fun st' hsegs hseqs => ?_)
+                have hsl : ([h] ++ [r, a, g0, g1, nf] ++ F).length = 6 + nf * 3 := by
+                  simp only [List.length_append, List.length_cons, List.length_nil, hfl]; try omega
+                have pstep := posStep_rec ds used rawFlagMesgDef ([h] ++ [r, a, g0, g1, nf] ++ F) (Or.inl rfl) hu
+                refine emit_post failAt st _ _ R3 _ ?_ ?_ ?_ (fun st' hsegs hseqs => ?_)
                 · rw [← h1]; simp [List.append_assoc]
                 · rw [h2, hstep]; rfl
-                · refine ih _ _ st' R3 k (defs.set (h &&& 0xF) (sizeSum F)) ?_ ?_ ?_ hb3 hk
+                · rw [hpw, pstep]; rfl
+                · refine ih _ _ st' R3 k (defs.set (h &&& 0xF) (sizeSum F)) ?_ ?_ ?_ hb3 ?_ ?_ hk
                   · rw [hsegs, flat_push, ← h1]; simp [List.append_assoc]
                   · rw [walk_of_segs st' st _ hsegs, h2, hstep]
                   · rw [hbit4 hisdef, show 1 + sizeSum F = sizeSum F + 1 by omega]
                     exact relLens_set hrel _ _
+                  · rw [pwalk_of_segs st' st _ hsegs, hpw, pstep, hsl]
+                  · omega
         · simp only [hdef, if_false]
           -- data
           have hnd : FitFormat.isDefinition h = false := by
@@ -342,12 +398,18 @@ theorem msgs_post {bs : Bytes} (failAt : Option Nat) (ds : Nat) (fuel : Nat) :
                 have hstep : lenStep (some defs) ⟨rawFlagMesgData, [h] ++ Pl⟩ = some defs := by
                   simp only [lenStep, hnd1, hnd2, if_false, if_true, List.cons_append, List.nil_append, hnd, hdefs,
                     Bool.not_false, and_self]
-                refine emit_post failAt st _ _ R2 _ ?_ ?_ (fun st' hsegs hseqs => ?_)
+                have hsl : ([h] ++ Pl).length = lens.get (localMesgNum h) := by
+                  simp only [List.length_append, List.length_cons, List.length_nil, hpl]; try omega
+                have pstep := posStep_rec ds used rawFlagMesgData ([h] ++ Pl) (Or.inr rfl) hu
+                refine emit_post failAt st _ _ R2 _ ?_ ?_ ?_ (fun st' hsegs hseqs => ?_)
                 · rw [← h1]; simp [List.append_assoc]
                 · rw [h2, hstep]; rfl
-                · refine ih _ _ st' R2 k defs ?_ ?_ hrel hbp hk
+                · rw [hpw, pstep]; rfl
+                · refine ih _ _ st' R2 k defs ?_ ?_ hrel hbp ?_ ?_ hk
                   · rw [hsegs, flat_push, ← h1]; simp [List.append_assoc]
                   · rw [walk_of_segs st' st _ hsegs, h2, hstep]
+                  · rw [pwalk_of_segs st' st _ hsegs, hpw, pstep, hsl]
+                  · omega
 
 theorem lenStep_crc (d : FitFormat.Defs) (c : Bytes) (hc : c.length = 2) : lenStep (some d) ⟨rawFlagCRC, c⟩ = some d := by
   have h1 : ¬ (rawFlagCRC = rawFlagFileHeader) := by decide
@@ -356,12 +418,13 @@ theorem lenStep_crc (d : FitFormat.Defs) (c : Bytes) (hc : c.length = 2) : lenSt
   simp only [lenStep, h1, h2, h3, if_false, if_true, hc]
 
 theorem decode_post {bs : Bytes} (failAt : Option Nat) (fuel : Nat) :
-    ∀ (st : St) (rest : Bytes), flat st.segs.reverse ++ rest = bs → (walk st).isSome → IsBytes rest →
-      Post bs (runExactR (decode failAt fuel st) rest) := by
+    ∀ (st : St) (rest : Bytes), flat st.segs.reverse ++ rest = bs → (walk st).isSome → pwalk st = some .outside →
+      IsBytes rest → Post bs (runExactR (decode failAt fuel st) rest) := by
   induction fuel with
-  | zero => intro st rest h1 hw _; exact post_done st rest h1 hw
+  | zero => intro st rest h1 hw hp _; exact post_done st rest h1 hw hp
   | succ fuel ih =>
-    intro st rest h1 hw hb
+    intro st rest h1 hw0 hp hb
+    have hw : Alive st := ⟨hw0, by rw [hp]; rfl⟩
     simp only [decode]
     rw [run_read]
     split
@@ -370,7 +433,7 @@ theorem decode_post {bs : Bytes} (failAt : Option Nat) (fuel : Nat) :
       subst hr
       simp only [List.isEmpty_nil, if_true]
       split
-      · exact post_done st [] h1 hw
+      · exact post_done st [] h1 hw0 hp
       · exact post_fail st _ [] [] (by simpa using h1) hw
     case isTrue hl1 =>
       obtain ⟨b0, rest1, rfl⟩ : ∃ h rest1, rest = h :: rest1 := by
@@ -397,19 +460,25 @@ theorem decode_post {bs : Bytes} (failAt : Option Nat) (fuel : Nat) :
           · simp only [eq_true htag, if_true, runExactR]
             exact post_fail st _ (b0 :: B) R2 (by rw [← h1]; simp) hw
           · simp only [eq_false htag, if_false]
-            obtain ⟨d0, hd0⟩ := Option.isSome_iff_exists.mp hw
+            obtain ⟨d0, hd0⟩ := Option.isSome_iff_exists.mp hw0
             have hstep : lenStep (some d0) ⟨rawFlagFileHeader, [b0] ++ B⟩ = some FitFormat.Defs.empty := by
               have : (b0 = 12 ∨ b0 = 14) ∧ (b0 :: B).length = b0 := by
                 simp only [List.length_cons, hhl]; omega
               simp only [lenStep, if_true, List.cons_append, List.nil_append, List.headD_cons, this, and_self]
-            refine emit_post failAt st _ _ R2 _ (by rw [← h1]; simp) (by rw [hd0, hstep]; rfl) (fun st' hsegs hseqs => ?_)
-            refine msgs_post failAt _ _ 0 [] st' R2 _ FitFormat.Defs.empty ?_ ?_ relLens_empty hb2 ?_
+            obtain ⟨hh, hph, hds⟩ := parseHeader_of_raw b0 B (by omega) hhl (by simpa using htag)
+            have pstep : posStep (some .outside) ⟨rawFlagFileHeader, [b0] ++ B⟩ = some (.inside (le32 (B.drop 3)) 0) := by
+              simp only [posStep, if_true, List.cons_append, List.nil_append, hph, Option.map_some, hds]
+            refine emit_post failAt st _ _ R2 _ (by rw [← h1]; simp) (by rw [hd0, hstep]; rfl) (by rw [hp, pstep]; rfl)
+              (fun st' hsegs hseqs => ?_)
+            refine msgs_post failAt _ _ 0 [] st' R2 _ FitFormat.Defs.empty ?_ ?_ relLens_empty hb2 ?_ (by omega) ?_
             · rw [hsegs, flat_push, ← h1]; simp
             · rw [walk_of_segs st' st _ hsegs, hd0, hstep]
-            · intro st2 rest2 h12 hw2 hbb
+            · rw [pwalk_of_segs st' st _ hsegs, hp, pstep]
+            · intro st2 rest2 h12 hw2 hbb ⟨u2, hp2, hu2⟩
+              have hal2 : Alive st2 := ⟨hw2, by rw [hp2]; rfl⟩
               rw [run_read]
               split
-              case isFalse => exact post_fail st2 _ rest2 [] (by simpa using h12) hw2
+              case isFalse => exact post_fail st2 _ rest2 [] (by simpa using h12) hal2
               case isTrue hlc =>
                 have hsc := split_at hlc
                 have hcl : (rest2.take 2).length = 2 := by rw [List.length_take]; exact Nat.min_eq_left hlc
@@ -418,11 +487,51 @@ theorem decode_post {bs : Bytes} (failAt : Option Nat) (fuel : Nat) :
                 generalize rest2.drop 2 = R3 at *
                 subst hsc
                 obtain ⟨d2, hd2⟩ := Option.isSome_iff_exists.mp hw2
-                refine emit_post failAt st2 _ _ R3 _ (by rw [← h12]; simp) (by rw [hd2, lenStep_crc d2 C hcl]; rfl) (fun st3 hsegs3 _ => ?_)
-                refine ih _ R3 ?_ ?_ hb3
+                refine emit_post failAt st2 _ _ R3 _ (by rw [← h12]; simp) (by rw [hd2, lenStep_crc d2 C hcl]; rfl)
+                  (by rw [hp2, posStep_crc _ _ C hu2]; rfl) (fun st3 hsegs3 _ => ?_)
+                refine ih _ R3 ?_ ?_ ?_ hb3
                 · simp only; rw [hsegs3, flat_push, ← h12]; simp
                 · have : walk { st3 with seqs := st3.seqs + 1 } = walk st3 := rfl
                   rw [this, walk_of_segs st3 st2 _ hsegs3, hd2, lenStep_crc d2 C hcl]; rfl
+                · have : pwalk { st3 with seqs := st3.seqs + 1 } = pwalk st3 := rfl
+                  rw [this, pwalk_of_segs st3 st2 _ hsegs3, hp2, posStep_crc _ _ C hu2]
+
+/-! ### the byte count `n` that `Decode` returns, over a reader without failures -/
+
+/-- every client of `io.ReadFull`, over ANY schedule without failures (in particular `bytes.NewReader`): the run that
+also counts the bytes pulled from the reader (`runFullN`, what the driver executes for the `raw` operation) gives the
+outcome of the exact-n reader on the same bytes and counts exactly `consumedExact` -/
+theorem runFullN_eq_exact {α : Type} (p : Prog α) : ∀ (s : Sched) (n0 : Nat), Clean s →
+    runFullN p s n0 = (runExact p (bytesOf s), n0 + consumedExact p (bytesOf s)) := by
+  induction p with
+  | ret a => intro s n0 _; simp [runFullN, runExact, consumedExact]
+  | read n k ih =>
+    intro s n0 hs
+    obtain ⟨d, e, s', hr, hcat, hcl, hdl, hok, hshort⟩ := readAtLeast_clean n n (Nat.le_refl n) s hs
+    have hrf : readFull n s = (d, e, s') := hr
+    by_cases hlen : n ≤ (bytesOf s).length
+    · obtain ⟨he, hmin⟩ := hok hlen
+      subst he
+      have hdn : d.length = n := by omega
+      have hd : d = (bytesOf s).take n := by
+        rw [← hcat, List.take_append_of_le_length (by omega), ← hdn, List.take_length]
+      have hs' : bytesOf s' = (bytesOf s).drop n := by
+        rw [← hcat, List.drop_append_of_le_length (by omega), ← hdn, List.drop_length, List.nil_append]
+      simp only [runFullN, hrf, runExact, consumedExact, exactRead, hlen, if_true]
+      rw [ih _ s' _ hcl, hs', ← hd, hdn]
+      simp only [List.length_drop, Prod.mk.injEq, true_and]
+      omega
+    · obtain ⟨hs', he⟩ := hshort (by omega)
+      subst hs' he
+      have hd : d = bytesOf s := by simpa [bytesOf_nil] using hcat
+      have hee : (if d = [] then RErr.eof else RErr.unexpectedEof) =
+          (if (bytesOf s).isEmpty then RErr.eof else RErr.unexpectedEof) := by
+        rw [hd]; cases bytesOf s <;> simp
+      simp only [runFullN, hrf, runExact, consumedExact, exactRead, hlen, if_false]
+      have hdl' : d.length = (bytesOf s).length := by rw [hd]
+      rw [ih _ [] _ clean_nil, hee]
+      simp only [bytesOf_nil, List.length_nil, Nat.sub_zero, Prod.mk.injEq]
+      cases hie : (bytesOf s).isEmpty <;> simp only [Bool.false_eq_true, if_false, if_true, true_and, List.length_nil, Nat.sub_zero] <;> omega
 
 /-! ### failures of the reader are handed back -/
 
